@@ -446,6 +446,47 @@ theorem C09_model_meets_spec_offset {DL Loc : Type} [DecidableEq Loc] (apiPath :
   rw [hid, hl] at this
   exact this
 
+/-! ## Both endpoints see the same frames
+
+`lookupFresh` = `SymbolMap::lookup` (`/source/v1`), `lookupBatch` = `lookup_sync` + `lookup_external`
+(`/symbolicate/v5`), Model/SourceApi.lean. -/
+
+/-- **The two lookup paths agree**, provided the external-file cache of the inner symbol map is coherent:
+`try_lookup_external(x)` either misses (hands `x` back) or answers what loading `x`'s file and asking it would
+answer. Whenever `SymbolMap::lookup` returns (after loading at most `fuel` external files),
+`lookup_sync` + `lookup_external` returns the same frames within the same bound, for every address, whatever
+the inner symbol map and the helper do; conversely with one more load. -/
+theorem C09_lookup_paths_agree {X C : Type} (im : InnerMap X C)
+    (hc : ∀ x, im.tryCached x = some (.external x) ∨ im.tryCached x = im.tryWithFile x (im.loadAux x))
+    (fuel a : Nat) (v : Option (List Frame)) :
+    (lookupFresh im fuel a = some v → lookupBatch im fuel a = some v) ∧
+    (lookupBatch im fuel a = some v → lookupFresh im (fuel + 1) a = some v) := by
+  unfold lookupFresh lookupBatch
+  cases hs : im.lookupSync a with
+  | none => simp
+  | some o =>
+    cases o with
+    | none => simp
+    | some f =>
+      cases f with
+      | available fs => simp
+      | external x =>
+        cases hw : im.withAddFile <;> cases hh : im.hasHelper <;> simp
+        rcases hc x with hx | hx
+        · rw [hx]
+          exact ⟨id, resolveExternal_mono im fuel _ v⟩
+        · rw [hx]
+          constructor
+          · intro h
+            cases fuel with
+            | zero => simp [resolveExternal] at h
+            | succ n =>
+              simp only [resolveExternal] at h
+              exact resolveExternal_mono im n _ v h
+          · intro h
+            simp only [resolveExternal]
+            exact h
+
 /-! ## wholesym's location policy (`wholesym/src/helper.rs:92-125`) as the helper -/
 
 /-- With wholesym's policy, if the symbol map that `load_symbol_map` chose does not live in a local file (it
@@ -573,3 +614,60 @@ example : (sourceApi toApiFilePath (C09_exEnv C09_exFrames)
 example : ∃ r, reportDebugInfo toApiFilePath C09_exFrames = some r ∧ r.files.length = 3 := by decide
 example : FirstMatch toApiFilePath C09_exShared "/home/u/proj/src/main.rs" C09_exLocal :=
   ⟨[], [C09_exCargo, C09_exLocal], by decide, by decide, by simp⟩
+
+/-! ### Non-vacuity of the offset / candidate / receiver theorems
+
+Four candidates: one fails to load, one is another build, two carry the requested build (the first of them, a
+downloaded one, wins). Offset 16 has the frames of `C09_exFrames`, offset 32 only the local file. -/
+
+def C09_exManager : Manager (Bool × String) (String × String) :=
+  { direct := none
+    cands := [.err,
+              .ok ⟨"OTHER", (false, "/local/lib.debug"), fun _ => .frames C09_exFrames⟩,
+              .ok ⟨"ID1", (true, "/symcache/lib.debug"), fun o =>
+                if o == 16 then .frames C09_exFrames else if o == 32 then .frames [⟨some C09_exLocal⟩] else .notFound⟩,
+              .ok ⟨"ID1", (false, "/mirror/lib.debug"), fun _ => .frames C09_exFrames⟩]
+    locationFor := fun dl p => some (dl.2, p)
+    fileLen := fun l => if l.2 == C09_exLocal.rawPath then some 120 else none }
+
+-- the receiver is the location of the first candidate with the requested id, not of the first candidate
+example : (sourceApiAt toApiFilePath C09_exManager ⟨true, some "ID1", 16, "/home/u/proj/src/main.rs"⟩).loads
+    = [("/symcache/lib.debug", "/home/u/proj/src/main.rs")] := by decide
+example : (sourceApiAt toApiFilePath C09_exManager ⟨true, some "ID1", 16, "/home/u/proj/src/main.rs"⟩).outcome
+    = .ok 120 := by decide
+-- reported for offset 16, not for offset 32: refused there, nothing read
+example : (sourceApiAt toApiFilePath C09_exManager
+      ⟨true, some "ID1", 32, "cargo:github.com-1ecc6299db9ec823:nom-7.1.3:src/bytes/complete.rs"⟩).outcome
+    = .err .invalidPath := by decide
+example : (sourceApiAt toApiFilePath C09_exManager
+      ⟨true, some "ID1", 16, "cargo:github.com-1ecc6299db9ec823:nom-7.1.3:src/bytes/complete.rs"⟩).loads
+    = [("/symcache/lib.debug", C09_exCargo.rawPath)] := by decide
+-- a build nobody has
+example : (sourceApiAt toApiFilePath C09_exManager ⟨true, some "ID2", 16, "/home/u/proj/src/main.rs"⟩).outcome
+    = .err .noSymbols := by decide
+-- one batched /symbolicate/v5 over three addresses: 1, 3 and 0 files
+example : (symbolicate toApiFilePath C09_exManager (some "ID1") [32, 16, 7]).map (fun e => e.2.files.length)
+    = [1, 3, 0] := by decide
+-- requests interleaved on one manager
+example : ((serve toApiFilePath C09_exManager
+      [⟨true, some "ID1", 32, "/etc/passwd"⟩, ⟨true, some "ID1", 16, "/home/u/proj/src/main.rs"⟩,
+       ⟨true, none, 16, "/home/u/proj/src/main.rs"⟩]).map (·.loads.length)) = [0, 1, 0] := by decide
+-- hypotheses of the wholesym theorems: a downloaded debug file wins
+example : ∃ (m : Manager WLoc WLoc) (l : Loaded WLoc), loadSymbolMap m "ID1" = some l ∧ ∀ p, l.dfl ≠ .localFile p :=
+  ⟨⟨none, [.err, .ok ⟨"ID1", .remote, fun _ => .frames C09_exFrames⟩], wholesymLocationFor ⟨fun _ => true, fun _ => none, fun a _ => a⟩,
+     fun _ => none⟩, ⟨"ID1", .remote, fun _ => .frames C09_exFrames⟩, by simp [loadSymbolMap, List.findSome?, candMatch], by intro p h; cases h⟩
+
+/-- external references chained through two files (dwo → …): `x` resolves after `x + 1` loads; the cache never hits -/
+def C09_exInner : InnerMap Nat Unit :=
+  { lookupSync := fun a => if a == 0 then none else some (some (.external (a - 1)))
+    withAddFile := true
+    hasHelper := true
+    loadAux := fun _ => some ()
+    tryWithFile := fun x _ => if x == 0 then some (.available [⟨some C09_exLocal⟩]) else some (.external (x - 1))
+    tryCached := fun x => some (.external x) }
+
+example : ∀ x, C09_exInner.tryCached x = some (.external x) ∨
+    C09_exInner.tryCached x = C09_exInner.tryWithFile x (C09_exInner.loadAux x) := fun _ => Or.inl rfl
+example : lookupFresh C09_exInner 2 2 = some (some [⟨some C09_exLocal⟩]) := by decide
+example : lookupBatch C09_exInner 2 2 = some (some [⟨some C09_exLocal⟩]) := by decide
+example : lookupFresh C09_exInner 1 2 = none := by decide
